@@ -154,3 +154,41 @@ ENGINES["alg"] = dict(path="coq/theories/Alg/{Lagrange,Choose,SSS,ZrModel,ZrBrid
                       props=["C18"],
                       kind="MathComp theorems over an arbitrary field/module + executable Z-model of sss.go/choose.go; Go harness driving "
                            "the real mpc/bls and mpc/ps functions (verif hooks, seeded reader, real BN254 groups)")
+
+# ---------------------------------------------------------------------------------------------- ps engine (C08, C09)
+from checks import ps as ps_engine
+REGISTRY["C08"] = ps_engine.run
+REGISTRY["C09"] = ps_engine.run
+PS_NOTE = ("Trusted: Coq kernel + vm_compute, no axioms (Print Assumptions: closed under the global context for every theorem). Ideal-group "
+           "model: scalars in an arbitrary field (prime group order, larger than the number of parties: premise), G1/G2/GT arbitrary modules "
+           "over it, the pairing a bilinear map (non-degenerate on the G2 generator where a theorem says so), SHA-256 / HashToZr / HashToG1 and "
+           "the two Fiat-Shamir oracles arbitrary functions. The models of mpc/ps (Blind, proveBlindingIsWellFormed, BlindCorrectFormProof.Verify, "
+           "SignBlindSignature, UnBlind, PoKofSig, SigPoK.Verify, ProveKnowledgeOfSignature, localAggregatePublicKeys, the DKG arithmetic) and of "
+           "mpc/bls (localSign/localVerify/localAggregateSignatures) are hand-written and tied to the code at verdict level: the same Gallina "
+           "functions are executed on every scenario in three toy instances (scalars Z/31, exponent space) and compared with the real verdicts; "
+           "IBM/mathlib, gnark-crypto, encoding/asn1 and crypto/rand are exercised, not verified.")
+META["C08"] = dict(engine="ps", note=PS_NOTE,
+    text="Proved in Coq (MathComp) for every field, every message length and vector, all nonces, every oracle, every N, t, every list of >= t "
+         "distinct signers and all dealt polynomials: an honestly blinded request passes the signer's proof check; every party's partial "
+         "signature unblinds to a witness for which the UnBlind pairing equation holds under that party's published key; the Lagrange-combined "
+         "witnesses give a proof of knowledge accepted under the threshold key (Lagrange reconstruction in the exponent for x and every y_i); "
+         "every party's share is sum_j p_j(i), its published key g2^that, and every t-subset aggregates to g2^(sum_j p_j(0)). Tie: real "
+         "in-process TPS key generations for all (N<=4,t) x L=1..4 with seeded randomness - every share, published key and threshold key "
+         "compared with the closed form at scalar level - then blind/sign/unblind/prove/verify for message vectors incl. empty and equal "
+         "entries and every signer subset; each verdict compared with the model's.")
+META["C09"] = dict(engine="ps", note=PS_NOTE + " Not theorems (generic-case / probabilistic, covered by the catalogue only): that changing a hashed "
+                   "component changes the challenge, and rejection of fewer than t shares as an event (stated as Shamir secrecy instead).",
+    text="Proved in Coq: BLS verification under g2^s accepts exactly H(m)^s, hence any altered share (Lagrange coefficients are non-zero), key, "
+         "aggregate or message is rejected; a wrong signer-to-share assignment is accepted exactly on the kernel of one linear functional of the "
+         "polynomial; t-1 shares are consistent with every secret through exactly one polynomial. PS: for one and the same challenge every "
+         "verification equation rejects a single-component change of each value occurring in it (request: d,f,s,x,y,z,a,b,cm,u; proof of "
+         "knowledge: Gamma,Phi,psi.y,psi.x,nu,h^eps,kappa,h'^eps) with the stated non-degeneracy premises; the oracle arguments determine every "
+         "hashed component; the request proof is checked before the secret key is touched; verification and signing return their argument "
+         "objects unchanged (repaired variant; the pinned variant is refuted: second verification of the same object fails). Tie: perturbation "
+         "catalogue on real objects (every field x {+generator, other session's value, zero} x {bytes, object}, each verified twice), lying "
+         "provers isolating each equation, wrong assignments / foreign witnesses / other keys / t-1 shares, oracle-argument sensitivity, "
+         "and malformed ASN.1 at every parser entry point.")
+ENGINES["ps"] = dict(path="coq/theories/Alg/{PS,Sigma,BLSVerify}.v + coq/theories/Corr/PSCorr.v + harness/ps + harness/psbls + checks/ps.py",
+                     props=["C08", "C09"],
+                     kind="MathComp model of the PS threshold blind signature and of BLS verification in an ideal-group model; Go harnesses "
+                          "driving the real mpc/ps and mpc/bls packages (each with its own pinned mathlib) through verif hooks with seeded randomness")
